@@ -11,7 +11,7 @@ State-machine model of the public API of `decoder.Decoder` (/repo/decoder/decode
   the accumulator, the local message definitions, the developer data indexes and field descriptions,
   `messages`, `fileId`, `crc`, the options (`St`); around it the reader's whole stream and the byte counter
   `d.n` (`Api`);
-* operations: `Decode`, `DecodeWithContext` (live or cancelled context), `PeekFileHeader`, `PeekFileId`,
+* operations: `Decode`, `DecodeWithContext` (context live, cancelled before the call, or cancelled while the call runs), `PeekFileHeader`, `PeekFileId`,
   `Discard`, `Next`, `CheckIntegrity` (followed by the documented re-seek of the reader), `Reset`;
 * every Go index / slice / division that can panic is an explicit `.panic` outcome (`idx`, `slice`,
   `modP`, `Value.unmarshal`, the request bound of `ReadN`); loops carry fuel and running out of it is the
@@ -759,11 +759,28 @@ def decodeMessages : Nat → St → LoopOut
       | r => loopFail s r
     else (s, [], .ok ())
 
-/-- `for d.fileId == nil { decodeMessage }` of `PeekFileId` -/
+/-- `decodeMessagesWithContext(ctx)` together with the `checkContext(ctx)` that follows it in `DecodeWithContext`, for a
+context that is live when the call starts and is cancelled while the call runs (by a listener, by another goroutine):
+`k` = the number of records this call decodes before a check of the context first sees the cancellation. The context
+is consulted once per record boundary — by the `select` at the head of every iteration while `d.cur < DataSize`, and by
+`checkContext` once the loop has ended — so `k` ranges over every distinguishable moment of cancellation; a loop that
+ends (or fails) after fewer than `k` records never sees it. -/
+def decodeMessagesCtx : Nat → Nat → St → LoopOut
+  | _, 0, s => (s, [], .err .ctx)
+  | 0, _ + 1, s => (s, [], if s.q.cur < s.q.hdr.dataSize then .hang else .ok ())
+  | fuel + 1, k + 1, s =>
+    if s.q.cur < s.q.hdr.dataSize then
+      match decodeMessage s with
+      | .ok (s', ev) => let (sf, evs, r) := decodeMessagesCtx fuel k s'; (sf, ev.toList ++ evs, r)
+      | r => loopFail s r
+    else (s, [], .ok ())
+
+/-- the loop of `PeekFileId`: `for d.fileId == nil { if d.cur >= d.fileHeader.DataSize { return invalid FileId }; decodeMessage }`
+— it stops at the first file_id message, or at the end of the sequence's messages when there is none -/
 def peekLoop : Nat → St → LoopOut
-  | 0, s => (s, [], if s.q.fileId.isNone then .hang else .ok ())
+  | 0, s => (s, [], if s.q.fileId.isNone ∧ s.q.cur < s.q.hdr.dataSize then .hang else .ok ())
   | fuel + 1, s =>
-    if s.q.fileId.isNone then
+    if s.q.fileId.isNone ∧ s.q.cur < s.q.hdr.dataSize then
       match decodeMessage s with
       | .ok (s', ev) => let (sf, evs, r) := peekLoop fuel s'; (sf, ev.toList ++ evs, r)
       | r => loopFail s r
@@ -845,6 +862,22 @@ def decodeBody (s : St) : StepOut :=
     | (s2, evs, r) => let (s', o) := fail s2 r; (release s', o, evs)
   | r => failHeader s r
 
+/-- the tail of `Decode` / `DecodeWithContext` after the record loop: CRC, `reset()`, and the deferred
+`releaseTemporaryObjects()`; an error of the loop or of the CRC becomes the sticky `d.err` -/
+def decodeTail (l : LoopOut) : StepOut :=
+  match l with
+  | (s2, evs, .ok ()) =>
+    match decodeCRC s2 with
+    | .ok s3 => (release (resetSeq s3), .fit ⟨s3.q.hdr, s3.q.msgs.reverse, s3.q.crc⟩, evs)
+    | r => let (s', o) := fail s2 r; (release s', o, evs)
+  | (s2, evs, r) => let (s', o) := fail s2 r; (release s', o, evs)
+
+/-- body of `DecodeWithContext` after the entry checks, for a context first seen cancelled after `k` records of this call -/
+def decodeBodyAt (k : Nat) (s : St) : StepOut :=
+  match headerOnce s with
+  | .ok s1 => decodeTail (decodeMessagesCtx (fuelOf s1) k s1)
+  | r => failHeader s r
+
 def stepDecode (s : St) : StepOut :=
   match s.q.err with
   | some e => (s, .err e, [])
@@ -857,6 +890,13 @@ def stepDecodeCtx (cancelled : Bool) (s : St) : StepOut :=
     if cancelled then ({ s with q := { s.q with err := some .ctx } }, .err .ctx, [])
     else decodeBody s
 
+/-- `DecodeWithContext(ctx)` with a context that is live at the entry check and cancelled during the call (see
+`decodeMessagesCtx`) -/
+def stepDecodeCtxAt (k : Nat) (s : St) : StepOut :=
+  match s.q.err with
+  | some e => (s, .err e, [])
+  | none => decodeBodyAt k s
+
 def stepPeekHeader (s : St) : StepOut :=
   match s.q.err with
   | some e => (s, .err e, [])
@@ -865,6 +905,8 @@ def stepPeekHeader (s : St) : StepOut :=
     | .ok s1 => (s1, .header s1.q.hdr, [])
     | r => failHeader s r
 
+/-- `PeekFileId`; a sequence without file_id message gives `mesgdef.NewFileId(nil)` (every field invalid) once all its
+messages are decoded -/
 def stepPeekFileId (s : St) : StepOut :=
   match s.q.err with
   | some e => (s, .err e, [])
@@ -872,7 +914,7 @@ def stepPeekFileId (s : St) : StepOut :=
     match headerOnce s with
     | .ok s1 =>
       match peekLoop (fuelOf s1) s1 with
-      | (s2, evs, .ok ()) => (s2, (match s2.q.fileId with | some f => .fileId f | none => .panic), evs)
+      | (s2, evs, .ok ()) => (s2, .fileId (match s2.q.fileId with | some f => f | none => mkFileId []), evs)
       | (s2, evs, r) => let (s', o) := fail s2 r; (s', o, evs)
     | r => failHeader s r
 
@@ -949,6 +991,9 @@ def Api.advance (a : Api) (d' : St) : Api :=
 inductive Op
   | decode
   | decodeCtx (cancelled : Bool)
+  /-- `DecodeWithContext(ctx)`, `ctx` live when the call starts and cancelled while it runs: the check of the context
+  that follows the `k`-th record decoded by this call is the first to see it (`k = 0`: the first check after the header) -/
+  | decodeCtxAt (k : Nat)
   | peekHeader
   | peekFileId
   | discard
@@ -983,6 +1028,7 @@ def step (a : Api) (op : Op) : Api × Out × List Event :=
   match op with
   | .decode => lift (stepDecode a.d)
   | .decodeCtx c => lift (stepDecodeCtx c a.d)
+  | .decodeCtxAt k => lift (stepDecodeCtxAt k a.d)
   | .peekHeader => lift (stepPeekHeader a.d)
   | .peekFileId => lift (stepPeekFileId a.d)
   | .discard => lift (stepDiscard a.d)
